@@ -98,14 +98,29 @@ def near_misses(rng):
         yield am
 
 
+NOT_CLAIMED = {}
+
+NOTE_MODEL = ("Trusted: Coq kernel; the hand-written model (tied by the named correspondence components, which are differential tests); "
+              "gen_tables.py; ExtrOcamlBasic extraction + ocaml/driver.ml; bliss/igraph as an oracle with contract H1/H2 (assumed, tested on every call).")
+
 SPECS = {
     "C13": dict(fn=c13, level="proof", components=["K4"], assumptions=MOL_ASSUME,
+                claim="Theorems classes_label_independent / classes_respect_automorphisms (unbounded: every molecule, every relabelling, listing order, bond orientation, payload) "
+                      "about the Gallina model of partition_molecule_by_attribute/refine_partitions; model tied to the code by K4 (classes compared atom by atom) on every run; "
+                      "falsifier checks label independence, equitability and automorphism-respect on the implementation.",
+                note=NOTE_MODEL, design_ref="DESIGN.md 4.13",
                 rule="molecule stream of gens.standard_stream (symmetric skeletons with partial labels, random, multi-component, organic, element traps, deep, trees, CFI) "
                      "+ exhaustive small scope; per molecule: relistings compared atom by atom through a tracer attribute, equitability and brute-force automorphisms (n<=7). "
                      "non-trivial = distinct molecule with >= 3 atoms and (non-trivial automorphism group or >= 2 refinement rounds or > 7 atoms)"),
     "C04": dict(fn=c04, level="proof", components=["K4", "K5", "K6"], assumptions=MOL_ASSUME,
+                claim="Theorem canonical_classes_edges_unique: for every labelling oracle meeting the canonical-form contract H2, two descriptions of one molecule get the same "
+                      "label->class map and edge set (unbounded). The bliss contract itself is assumed and tested (K6 = the property on the implementation).",
+                note=NOTE_MODEL, design_ref="DESIGN.md 4.4",
                 rule="same stream; per molecule the views (label -> element, mass, radical, class; edge set) of the canonical graphs of several relistings are compared; non-trivial as for C13"),
     "C12": dict(fn=c12, level="proof", components=["K5"], assumptions=MOL_ASSUME,
+                claim="Theorem canonicalize_is_renaming: for every oracle returning a bijection (H1) the canonical graph is the input under a one-to-one renaming onto 0..n-1 with every "
+                      "payload and bond datum kept in place. Mutation/aliasing of Python objects cannot be exhibited by a pure model: decided by deep before/after comparison on the implementation.",
+                note=NOTE_MODEL, design_ref="DESIGN.md 4.12",
                 rule="same stream; deep before/after comparison of the argument object, tracer-based attribute and bond-data carrying, repeated calls; non-trivial as for C13"),
     "C01": dict(fn=c01, level="proof", components=["K4", "K5", "K6", "K7"], assumptions=MOL_ASSUME,
                 rule="same stream + exhaustive small scope grouped by string against brute-force isomorphism classes; strings of relistings compared byte for byte; non-trivial as for C13"),
